@@ -32,8 +32,8 @@ open Model.Purity Model.Instance
     window function `_apply_on_window` = public steps 2–7 entered with window copies): whatever the stores write
     and whichever inner configuration the ISIMIP window function runs under, the six caller buffers (obs, cm_hist,
     cm_future, time_obs, time_cm_hist, time_cm_future) hold the same contents after the call. -/
-theorem inputs_preserved {α : Type} (c : Cfg) (s t : St α) (henv : s.env = c.initEnv) (hheap : nCaller ≤ s.heap.length)
-    (hx : Exec c (entryProg c) s t) : ∀ k, k < nCaller → t.heap[k]? = s.heap[k]? := by
+theorem inputs_preserved {α : Type} (G : RngGuard → Bool) (c : Cfg) (s t : St α) (henv : s.env = c.initEnv)
+    (hheap : nCaller ≤ s.heap.length) (hx : Exec G c (entryProg c) s t) : ∀ k, k < nCaller → t.heap[k]? = s.heap[k]? := by
   have hs := Lemmas.Purity.safe_all c
   unfold safe at hs
   cases hc : check c fuel (entryProg c) (absEnv c.initEnv) with
@@ -42,14 +42,14 @@ theorem inputs_preserved {α : Type} (c : Cfg) (s t : St α) (henv : s.env = c.i
 
 /-- the hypotheses of `inputs_preserved` are satisfiable: an execution of `LinearScaling.apply_location` (no window)
     exists for every content `v` of the result -/
-example (o h f : List Int) (v : List Int) :
-    ∃ t : St Int, Exec (.ls (.applyLocation false) false)
-      (entryProg (.ls (.applyLocation false) false)) ⟨initEnvOf false, [o, h, f, [], [], []]⟩ t :=
+example (G : RngGuard → Bool) (o h f : List Int) (v : List Int) :
+    ∃ t : St Int, Exec G (.ls (.applyLocation false) false)
+      (entryProg (.ls (.applyLocation false) false)) ⟨initEnvOf false, [o, h, f, [], [], []], 0⟩ t :=
   ⟨_, Exec.call (Exec.call (Exec.fresh v (Exec.nil _ _)) rfl (Exec.nil _ _)) rfl (Exec.nil _ _)⟩
 
 /-- **result_is_fresh.**  The array handed back is a buffer the library allocated (it shares no memory with an input). -/
-theorem result_is_fresh {α : Type} (c : Cfg) (s t : St α) (henv : s.env = c.initEnv) (hheap : nCaller ≤ s.heap.length)
-    (hx : Exec c (entryProg c) s t) : ∃ b, clook t.env .result = some b ∧ nCaller ≤ b := by
+theorem result_is_fresh {α : Type} (G : RngGuard → Bool) (c : Cfg) (s t : St α) (henv : s.env = c.initEnv)
+    (hheap : nCaller ≤ s.heap.length) (hx : Exec G c (entryProg c) s t) : ∃ b, clook t.env .result = some b ∧ nCaller ≤ b := by
   have hr := Lemmas.Purity.resultOwn_all c
   unfold resultOwn at hr
   cases hc : check c fuel (entryProg c) (absEnv c.initEnv) with
@@ -95,13 +95,45 @@ theorem stores_listed (c : Cfg) : storesListed c = true := Lemmas.Purity.stores_
     ISIMIP window function, which writes into its arguments, only ever receives copies (complete finite table) -/
 theorem callArgs_classified : callArgsJ.all callArgOk = true ∧ isimipWindowArgsFresh = true := by decide +kernel
 
-/-- seed-determinism, the static part: the only draw sites of the anchored files are the six guarded ones, each inside
-    a function the alias model knows (the three ISIMIP ones) or a `distribution` method / the CDFt SSR helper; a
-    configuration whose guards are all off reaches none of them.  (Complete finite table; that a deterministic
-    configuration leaves `np.random.get_state()` untouched and repeats bit-for-bit without re-seeding is checked on the
-    real code by tier B.) -/
+/-! ### numpy's global generator (a counter in the store: how many values have been drawn) -/
+
+/-- **generator_moves_only_under_guard.**  In every execution of every program the generator never goes backwards, and
+    if it has moved then a guard of the instance is on (CDFt SSR, ISIMIP imputation / lower / upper randomisation,
+    a hurdle model with cdf randomisation, a left-censored gamma model). -/
+theorem generator_moves_only_under_guard {α : Type} (G : RngGuard → Bool) (c : Cfg) (p : List Stmt) (s t : St α)
+    (hx : Exec G c p s t) : s.rng ≤ t.rng ∧ (t.rng ≠ s.rng → ∃ g, G g = true) :=
+  Lemmas.Purity.rng_moves_only_under_guard hx
+
+/-- **deterministic_leaves_generator_untouched.**  A call on an instance none of whose random steps is switched on
+    does not consume numpy's global generator (`np.random.get_state()` is the same before and after). -/
+theorem deterministic_leaves_generator_untouched {α : Type} (G : RngGuard → Bool) (hG : ∀ g, G g = false) (c : Cfg)
+    (s t : St α) (hx : Exec G c (entryProg c) s t) : t.rng = s.rng := by
+  by_cases h : t.rng = s.rng
+  · exact h
+  · obtain ⟨g, hg⟩ := (Lemmas.Purity.rng_moves_only_under_guard hx).2 h
+    rw [hG g] at hg
+    exact absurd hg (by simp)
+
+/-- the guards are not decoration: with the SSR guard on, the CDFt randomisation helper does advance the generator -/
+example : Exec (α := Int) (fun _ => true) (.cdft (.applyLocation true) false false true true)
+    (body (.cdft (.applyLocation true) false false true true) .cdftRandomize) ⟨[(V.x.ctorIdx, 0)], [[]], 0⟩
+    ⟨[(V.ret.ctorIdx, 1), (V.x.ctorIdx, 0)], [[], [7]], 5⟩ :=
+  Exec.draw 5 (by simp) (Exec.fresh [7] (Exec.nil _ _))
+
+/-- **draw_sites_tied** (complete finite tables).  The `draw` statements of the programs and the table of
+    `np.random.*` call sites (regenerated from the source: `Lemmas.GenWriteSites.rngSites`) name the same
+    (function, guard) pairs, in both directions; a draw that a settings flag switches on occurs only in a configuration
+    that declares the guard, and the flag-guarded helpers (`_step2_impute_values`, the two step-4 randomisers, the
+    CDFt SSR randomiser) are called only under their flag.  Hence a configuration with `rngGuards = []` and a
+    distribution without cdf randomisation reaches no draw: its guard valuation is all-false and
+    `deterministic_leaves_generator_untouched` applies. -/
+theorem draw_sites_tied :
+    drawsBacked Lemmas.Purity.witnessCfgs = true ∧ ∀ c : Cfg, drawsListed c = true ∧ helperCallsGuarded c = true :=
+  ⟨Lemmas.Purity.draws_backed, fun c => ⟨Lemmas.Purity.draws_listed c, Lemmas.Purity.helper_calls_guarded c⟩⟩
+
+/-- which configurations of the alias model declare no guard -/
 theorem rng_sites_guarded :
-    rngSitesJ.map (·.2) = [.cdftSSR, .isimipImpute, .isimipLower, .isimipUpper, .hurdleRandomization, .censoredModel] ∧
+    rngSitesJ.map (·.2.1) = [.cdftSSR, .isimipImpute, .isimipLower, .isimipUpper, .hurdleRandomization, .censoredModel] ∧
     (∀ e w y h, (Cfg.cdft e w y false h).rngGuards = []) ∧
     (∀ d t m, (Cfg.isimipWindow false d false false t m).rngGuards = []) := by
   refine ⟨rfl, ?_, ?_⟩ <;> intros <;> rfl
@@ -186,6 +218,99 @@ theorem apply_repeatable (run : Kind → View σ → A → U → Except String O
     rw [hst]
     unfold apply
     rw [derive_idem]
+
+/-- **apply_state_fixpoint.**  The instance after a second `apply` is the instance after the first (the `vars(instance)`
+    snapshots of tier B). -/
+theorem apply_state_fixpoint (run : Kind → View σ → A → U → Except String O) (k : Kind) (i : Inst σ) (a a' : A) (u u' : U) :
+    (apply run k (apply run k i a u).1 a' u').1 = (apply run k i a u).1 := by
+  rw [(apply_settings_fixed run k _ a' u').1, (apply_settings_fixed run k i a u).1, derive_idem]
+
+/-- **applyLocation_state.**  `apply_location` leaves every attribute of the instance as it is (it does not even
+    re-derive). -/
+theorem applyLocation_state (runLoc : Kind → View σ → A → U → Except String O) (k : Kind) (i : Inst σ) (a : A) (u : U) :
+    (applyLocation runLoc k i a u).1 = i := rfl
+
+theorem runSeq_state (run runLoc : Kind → View σ → A → U → Except String O) (k : Kind) (i : Inst σ) (calls : List (Call A U)) :
+    runSeq run runLoc k i calls = i ∨ runSeq run runLoc k i calls = (derive k i).1 := by
+  induction calls generalizing i with
+  | nil => exact Or.inl rfl
+  | cons c r ih =>
+    simp only [runSeq]
+    cases c with
+    | applyLocation a u => exact ih i
+    | apply a u =>
+      simp only [runCall]
+      rw [(apply_settings_fixed run k i a u).1]
+      rcases ih (derive k i).1 with h | h
+      · exact Or.inr h
+      · right; rw [h, derive_idem]
+
+/-- **mixed_repeatable.**  After any sequence of earlier calls through BOTH entry points (`apply` on grids,
+    `apply_location` on single series; other data, other draws, calls that raised), `apply` gives the output of the very
+    first such call on the original instance. -/
+theorem mixed_repeatable (run runLoc : Kind → View σ → A → U → Except String O) (k : Kind) (i : Inst σ)
+    (calls : List (Call A U)) (a : A) (u : U) :
+    (apply run k (runSeq run runLoc k i calls) a u).2 = (apply run k i a u).2 := by
+  rcases runSeq_state run runLoc k i calls with h | h
+  · rw [h]
+  · rw [h]; unfold apply; rw [derive_idem]
+
+/-- **applyLocation_repeatable.**  On an instance in the state construction leaves it in (a fixed point of
+    `__attrs_post_init__`), a direct `apply_location` after any mixed sequence of earlier calls gives the same output:
+    the sequence never changes the instance. -/
+theorem applyLocation_repeatable (run runLoc : Kind → View σ → A → U → Except String O) (k : Kind) (i : Inst σ)
+    (hfix : (derive k i).1 = i) (calls : List (Call A U)) (a : A) (u : U) :
+    (applyLocation runLoc k (runSeq run runLoc k i calls) a u).2 = (applyLocation runLoc k i a u).2 := by
+  rcases runSeq_state run runLoc k i calls with h | h
+  · rw [h]
+  · rw [h, hfix]
+
+/-- the hypothesis of `applyLocation_repeatable` holds for every constructed instance -/
+example (k : Kind) (s : Settings σ) : (derive k (construct k s).1).1 = (construct k s).1 := by
+  unfold construct; rw [derive_idem]
+
+/-- **deterministic_any_draws.**  If the run of a configuration does not read the draws (no random step is switched
+    on — what `draw_sites_tied` says statically and tier B checks by not re-seeding), then a call after any mixed
+    sequence of earlier calls gives the same output whatever state the generator is in. -/
+theorem deterministic_any_draws (run runLoc : Kind → View σ → A → U → Except String O) (k : Kind) (i : Inst σ)
+    (hdet : ∀ v a u u', run k v a u = run k v a u') (calls : List (Call A U)) (a : A) (u u' : U) :
+    (apply run k (runSeq run runLoc k i calls) a u').2 = (apply run k i a u).2 := by
+  rw [mixed_repeatable]
+  unfold apply
+  cases derive k i with
+  | mk j x => cases x with
+    | none => exact hdet _ _ _ _
+    | some e => rfl
+
+theorem settings_ext (i j : Inst σ) (hc : Lemmas.Instance.core i = Lemmas.Instance.core j)
+    (ht : i.settings.cdfThreshold = j.settings.cdfThreshold) : i.settings = j.settings := by
+  obtain ⟨⟨a1, a2, a3, a4, a5, a6, a7, a8, a9, a10⟩, d⟩ := i
+  obtain ⟨⟨b1, b2, b3, b4, b5, b6, b7, b8, b9, b10⟩, d'⟩ := j
+  simp only [Lemmas.Instance.core, Lemmas.Instance.Core.mk.injEq] at hc
+  simp only at ht
+  obtain ⟨h1, h2, h3, h4, h5, h6, h7, h8, h9⟩ := hc
+  subst h1 h2 h3 h4 h5 h6 h7 h8 h9 ht
+  rfl
+
+/-- **excursion_invisible.**  Assign another `running_window_length`, call `apply`, assign the old length back: the
+    next `apply` gives the output it gave before the excursion (the derived window object is rebuilt; nothing else
+    remembers the excursion) — provided the threshold of a QuantileDeltaMapping is a value (it always is after
+    construction); `qdm_cdf_threshold_sticky` shows what happens to it when the length is NOT assigned back. -/
+theorem excursion_invisible (run : Kind → View σ → A → U → Except String O) (k : Kind) (j : Inst σ)
+    (hcdf : j.settings.cdfThreshold ≠ none ∨ k ≠ .quantileDeltaMapping) (L' : Int) (a a' : A) (u u' : U) :
+    (apply run k (setRwLen (apply run k (setRwLen j L') a' u').1 j.settings.rwLen) a u).2 = (apply run k j a u).2 := by
+  apply output_depends_only_on
+  have hs := apply_settings_fixed run k (setRwLen j L') a' u'
+  have hc := hs.2.1
+  have ht := hs.2.2 (by
+    rcases hcdf with h | h
+    · exact Or.inl (by simpa [setRwLen] using h)
+    · exact Or.inr h)
+  apply settings_ext
+  · simp only [Lemmas.Instance.core, Lemmas.Instance.Core.mk.injEq, setRwLen] at hc ⊢
+    obtain ⟨h1, _, h3, h4, h5, h6, h7, h8, h9⟩ := hc
+    simp [h1, h3, h4, h5, h6, h7, h8, h9]
+  · simpa [setRwLen] using ht
 
 /-- non-trivial instance of the hypotheses: a QuantileDeltaMapping whose output is the threshold it sees -/
 example : (apply (fun _ v (_ : Unit) (_ : Unit) => (.ok v.settings.cdfThreshold : Except String (Option Rat)))
